@@ -21,7 +21,7 @@ Open Scope list_scope.
    "in the order the read cards were met", and the reading ends without an error. *)
 Theorem C20_order : forall w ft top fuel ls ys0 q0 n,
   ft top = Some ls ->
-  scan_file w 0 top (f_rest (read_front_matters ls)) = (ys0, q0, None) ->
+  scan_file w false 0 top (f_rest (read_front_matters ls)) = (ys0, q0, None) ->
   Forall (item_ok w ft (dirname top)) (bfs n w ft (dirname top) q0) ->
   gen_at n w ft (dirname top) q0 = [] ->
   List.length (bfs n w ft (dirname top) q0) <= fuel ->
@@ -34,7 +34,7 @@ Print Assumptions C20_order.
 (* 2. ONCE.  Each read card contributes the inputs of its file exactly once, as one segment. *)
 Theorem C20_once : forall w ft top fuel ls ys0 q0 n,
   ft top = Some ls ->
-  scan_file w 0 top (f_rest (read_front_matters ls)) = (ys0, q0, None) ->
+  scan_file w false 0 top (f_rest (read_front_matters ls)) = (ys0, q0, None) ->
   Forall (item_ok w ft (dirname top)) (bfs n w ft (dirname top) q0) ->
   gen_at n w ft (dirname top) q0 = [] ->
   List.length (bfs n w ft (dirname top) q0) <= fuel ->
@@ -56,7 +56,7 @@ Print Assumptions C20_block_partial.
 Theorem C20_block_refuted :
   exists w fs cwd top fuel it p i,
     ra_error (read_all w fs cwd top fuel) = None /\
-    snd (fst (scan_file w 0 top (f_rest (read_front_matters (file_lines (snd (List.hd ("", "") fs))))))) = [it] /\
+    snd (fst (scan_file w false 0 top (f_rest (read_front_matters (file_lines (snd (List.hd ("", "") fs))))))) = [it] /\
     In (YInput p i) (item_yields w (fs_text fs cwd) (dirname top) it) /\
     fst (fst it) = 2 /\ i_bt i = 1 /\ i_lines i = ["mode n"].
 Proof. exact block_refuted. Qed.
@@ -66,7 +66,7 @@ Print Assumptions C20_block_refuted.
    cards that stood in block b, in breadth-first order. *)
 Theorem C20_block_order : forall w ft top fuel ls ys0 q0 n b,
   ft top = Some ls ->
-  scan_file w 0 top (f_rest (read_front_matters ls)) = (ys0, q0, None) ->
+  scan_file w false 0 top (f_rest (read_front_matters ls)) = (ys0, q0, None) ->
   Forall (item_ok w ft (dirname top)) (bfs n w ft (dirname top) q0) ->
   Forall (item_one_block ft (dirname top)) (bfs n w ft (dirname top) q0) ->
   gen_at n w ft (dirname top) q0 = [] ->
@@ -83,7 +83,7 @@ Print Assumptions C20_block_order.
 Example C20_text_hypotheses :
   exists ls ys0,
     ex_ft ex_top = Some ls /\
-    scan_file 128 0 ex_top (f_rest (read_front_matters ls)) = (ys0, ex_q0, None) /\
+    scan_file 128 false 0 ex_top (f_rest (read_front_matters ls)) = (ys0, ex_q0, None) /\
     Forall (item_ok 128 ex_ft (dirname ex_top)) (bfs 3 128 ex_ft (dirname ex_top) ex_q0) /\
     Forall (item_one_block ex_ft (dirname ex_top)) (bfs 3 128 ex_ft (dirname ex_top) ex_q0) /\
     gen_at 3 128 ex_ft (dirname ex_top) ex_q0 = [] /\
@@ -109,10 +109,10 @@ Theorem C20_flatten : forall w t top front tsf n,
   top_ok w tsf = true ->
   slookup t top = None ->
   Forall (s_item_ok w t (dirname top))
-         (bfsG (s_children w t (dirname top)) n (reads_of w top (sfile_tcards 0 tsf))) ->
+         (bfsG (s_children w t (dirname top)) n (reads_of w top (sfile_tcards false 0 tsf))) ->
   forall fuel,
-  gen_atG (s_children w t (dirname top)) n (reads_of w top (sfile_tcards 0 tsf)) = [] ->
-  List.length (bfsG (s_children w t (dirname top)) n (reads_of w top (sfile_tcards 0 tsf))) <= fuel ->
+  gen_atG (s_children w t (dirname top)) n (reads_of w top (sfile_tcards false 0 tsf)) = [] ->
+  List.length (bfsG (s_children w t (dirname top)) n (reads_of w top (sfile_tcards false 0 tsf))) <= fuel ->
   let r := read_all_ft w (tree_ft top (front ++ render tsf) t) top fuel in
   let r1 := read_single w (front ++ render (flatten w t top tsf n)) in
   ra_error r = None /\ ra_error r1 = None /\
@@ -125,9 +125,9 @@ Example C20_flatten_hypotheses :
   front_ok [L "MESSAGE: x"; L "more"; L ""; L "title"] /\ front_ok [L "title"] /\
   top_ok 128 ex_tsf = true /\ slookup ex_tree ex_top = None /\
   Forall (s_item_ok 128 ex_tree (dirname ex_top))
-         (bfsG (s_children 128 ex_tree (dirname ex_top)) 3 (reads_of 128 ex_top (sfile_tcards 0 ex_tsf))) /\
-  gen_atG (s_children 128 ex_tree (dirname ex_top)) 3 (reads_of 128 ex_top (sfile_tcards 0 ex_tsf)) = [] /\
-  List.length (bfsG (s_children 128 ex_tree (dirname ex_top)) 3 (reads_of 128 ex_top (sfile_tcards 0 ex_tsf))) = 4.
+         (bfsG (s_children 128 ex_tree (dirname ex_top)) 3 (reads_of 128 ex_top (sfile_tcards false 0 ex_tsf))) /\
+  gen_atG (s_children 128 ex_tree (dirname ex_top)) 3 (reads_of 128 ex_top (sfile_tcards false 0 ex_tsf)) = [] /\
+  List.length (bfsG (s_children 128 ex_tree (dirname ex_top)) 3 (reads_of 128 ex_top (sfile_tcards false 0 ex_tsf))) = 4.
 Proof. exact ex_tree_hyps. Qed.
 
 Example C20_flatten_text :
@@ -143,11 +143,11 @@ Proof. exact ex_flatten. Qed.
 Theorem C20_flatten_lead_comment_refuted :
   exists w t top front tsf n fuel,
     front_ok front /\ top_ok w tsf = true /\ slookup t top = None /\
-    Forall (fun it => exists sf, slookup t (item_path (dirname top) it) = Some sf /\ sfile_ok w sf = true /\
+    Forall (fun it => exists sf, slookup t (item_path (dirname top) it) = Some sf /\ sfile_ok w true sf = true /\
                                  s_more sf = [])
-           (bfsG (s_children w t (dirname top)) n (reads_of w top (sfile_tcards 0 tsf))) /\
-    gen_atG (s_children w t (dirname top)) n (reads_of w top (sfile_tcards 0 tsf)) = [] /\
-    List.length (bfsG (s_children w t (dirname top)) n (reads_of w top (sfile_tcards 0 tsf))) <= fuel /\
+           (bfsG (s_children w t (dirname top)) n (reads_of w top (sfile_tcards false 0 tsf))) /\
+    gen_atG (s_children w t (dirname top)) n (reads_of w top (sfile_tcards false 0 tsf)) = [] /\
+    List.length (bfsG (s_children w t (dirname top)) n (reads_of w top (sfile_tcards false 0 tsf))) <= fuel /\
     ycards (ra_yields (read_all_ft w (tree_ft top (front ++ render tsf) t) top fuel))
       = [(0, ["1 0 -1"]); (1, ["1 so 5"]); (2, ["mode n"]); (2, ["c lead"; "nps 10"])] /\
     ycards (ra_yields (read_single w (front ++ render (flatten w t top tsf n))))
@@ -166,7 +166,7 @@ Print Assumptions C20_cwd_free.
    ends in FileNotFoundError after handing on what came before; so does a missing top-level file. *)
 Theorem C20_missing : forall w ft top fuel ls ys0 q0 n pre it post,
   ft top = Some ls ->
-  scan_file w 0 top (f_rest (read_front_matters ls)) = (ys0, q0, None) ->
+  scan_file w false 0 top (f_rest (read_front_matters ls)) = (ys0, q0, None) ->
   bfs n w ft (dirname top) q0 = pre ++ it :: post ->
   Forall (item_ok w ft (dirname top)) pre -> item_missing ft (dirname top) it ->
   List.length pre < fuel ->
@@ -183,7 +183,7 @@ Print Assumptions C20_missing_top.
 Example C20_missing_hypotheses :
   exists ls ys0 q0 pre it post,
     fs_text (removelast ex_fs) "/" ex_top = Some ls /\
-    scan_file 128 0 ex_top (f_rest (read_front_matters ls)) = (ys0, q0, None) /\
+    scan_file 128 false 0 ex_top (f_rest (read_front_matters ls)) = (ys0, q0, None) /\
     bfs 3 128 (fs_text (removelast ex_fs) "/") (dirname ex_top) q0 = pre ++ it :: post /\
     Forall (item_ok 128 (fs_text (removelast ex_fs) "/") (dirname ex_top)) pre /\
     item_missing (fs_text (removelast ex_fs) "/") (dirname ex_top) it /\ List.length pre < 4.
@@ -194,13 +194,13 @@ Proof. exact ex_missing. Qed.
    whatever the files hold. *)
 Theorem C20_write_omits_only_read_cards : forall w ft top fuel ls ys0 q0 n,
   ft top = Some ls ->
-  scan_file w 0 top (f_rest (read_front_matters ls)) = (ys0, q0, None) ->
+  scan_file w false 0 top (f_rest (read_front_matters ls)) = (ys0, q0, None) ->
   Forall (item_ok w ft (dirname top)) (bfs n w ft (dirname top) q0) ->
   gen_at n w ft (dirname top) q0 = [] ->
   List.length (bfs n w ft (dirname top) q0) <= fuel ->
   inputs_of (ra_yields (read_all_ft w ft top fuel))
     = map (pair top) (filter (fun i => negb (is_name (classify i)))
-                             (fst (read_data_from w 0 (f_rest (read_front_matters ls))))) ++
+                             (fst (read_data_rec w false 0 (f_rest (read_front_matters ls))))) ++
       flat_map (fun it => map (pair (item_path (dirname top) it))
                               (filter (fun i => negb (is_name (classify i))) (item_inputs w ft (dirname top) it)))
                (bfs n w ft (dirname top) q0).
@@ -216,7 +216,7 @@ Print Assumptions C20_write_no_read_card.
    and readable), no amount of fuel is enough: the drain loop of the code does not terminate ... *)
 Theorem C20_cycle : forall w ft top ls ys0 q0 (good S : qitem -> Prop),
   ft top = Some ls ->
-  scan_file w 0 top (f_rest (read_front_matters ls)) = (ys0, q0, None) ->
+  scan_file w false 0 top (f_rest (read_front_matters ls)) = (ys0, q0, None) ->
   (forall it, good it -> item_ok w ft (dirname top) it /\ Forall good (item_children w ft (dirname top) it)) ->
   (forall it, S it -> good it /\ Exists S (item_children w ft (dirname top) it)) ->
   Forall good q0 -> Exists S q0 ->
